@@ -85,3 +85,128 @@ func FlagAlphabet(p string) []ops.Op {
 	}
 	return a
 }
+
+// AlphabetB is the archive-level alphabet (Operations API): batched Archive, content/metadata Update, Delete, Move.
+func AlphabetB(full bool) []ops.Op {
+	a := []ops.Op{}
+	batches := []string{"d", "e", "g", "d,f", "e,h,k", "d,f,n"}
+	if full {
+		batches = append(batches, "f", "h", "k", "g,e", "d,n,g", "k,h,e")
+	}
+	for _, b := range batches {
+		a = append(a, ops.Op{K: "archive", P: b})
+	}
+	upd := []ops.Op{
+		{K: "update", P: "/e", C: "T513:1", N: 1},
+		{K: "update", P: "/g", C: "T5:2", N: 1},
+		{K: "update", P: "/g", N: 0},
+		{K: "update", P: "/d/f", C: "", N: 1},
+		{K: "update", P: "/d", N: 0},
+	}
+	if full {
+		upd = append(upd, ops.Op{K: "update", P: "/d/f", C: "T1024:4", N: 1}, ops.Op{K: "update", P: "/e", N: 0}, ops.Op{K: "update", P: "/h", C: "T512:9", N: 1})
+	}
+	a = append(a, upd...)
+	for _, p := range []string{"/e", "/g", "/d", "/d/f"} {
+		a = append(a, ops.Op{K: "delete", P: p})
+	}
+	mv := [][2]string{{"/e", "/g"}, {"/g", "/e"}, {"/d", "/m"}, {"/d/f", "/e"}, {"/g", "/d/g"}, {"/m", "/d"}}
+	for _, m := range mv {
+		a = append(a, ops.Op{K: "move", P: m[0], Q: m[1]})
+	}
+	return a
+}
+
+// WSetups builds the initial states of the C12 exploration: all subsets (size <= maxSize) of the top-level names,
+// each populated with children x, x_ and d/x.
+func WSetups(names []string, maxSize int) [][]ops.Op {
+	out := [][]ops.Op{}
+	n := len(names)
+	for mask := 1; mask < 1<<n; mask++ {
+		cnt := 0
+		for i := 0; i < n; i++ {
+			if mask&(1<<i) != 0 {
+				cnt++
+			}
+		}
+		if cnt > maxSize {
+			continue
+		}
+		setup := []ops.Op{}
+		for i := 0; i < n; i++ {
+			if mask&(1<<i) == 0 {
+				continue
+			}
+			w := "/" + names[i]
+			setup = append(setup,
+				ops.Op{K: "mkdir", P: w},
+				ops.Op{K: "put", P: w + "/x", C: "in " + names[i]},
+				ops.Op{K: "put", P: w + "/x_", C: ""},
+				ops.Op{K: "mkdir", P: w + "/d"},
+				ops.Op{K: "put", P: w + "/d/x", C: "deep " + names[i]},
+			)
+		}
+		out = append(out, setup)
+	}
+	return out
+}
+
+// WAlphabet: recursive operations over the top-level names.
+func WAlphabet(names []string) []ops.Op {
+	a := []ops.Op{}
+	for _, w := range names {
+		a = append(a, ops.Op{K: "removeall", P: "/" + w})
+	}
+	for _, w := range names {
+		a = append(a, ops.Op{K: "remove", P: "/" + w})
+	}
+	for _, w := range names {
+		for _, v := range names {
+			if w != v {
+				a = append(a, ops.Op{K: "rename", P: "/" + w, Q: "/" + v})
+			}
+		}
+		a = append(a, ops.Op{K: "rename", P: "/" + w, Q: "/" + w + "/sub"})
+		a = append(a, ops.Op{K: "rename", P: "/" + w, Q: "/" + w + "/d/sub"})
+	}
+	for _, w := range names {
+		for _, v := range names {
+			if w != v {
+				a = append(a, ops.Op{K: "rename", P: "/" + w + "/x", Q: "/" + v + "/x"})
+			}
+		}
+	}
+	return a
+}
+
+var WNames = []string{"a", "ab", "a_", "a%", "a b", "a.", "ä"}
+
+// HandleAlphabet: handle calls over tiny argument domains, relative to the initial content length l.
+func HandleAlphabet(l int, appendMode bool) []ops.Op {
+	a := []ops.Op{}
+	for _, n := range []int{1, 3, 4096, 0} {
+		a = append(a, ops.Op{K: "h.read", N: n})
+	}
+	offs := uniqInts([]int{-1, 0, 2, l, l + 3})
+	for _, n := range []int{1, 3} {
+		for _, off := range offs {
+			a = append(a, ops.Op{K: "h.readat", N: n, H: off})
+		}
+	}
+	for _, wh := range []int{0, 1, 2} {
+		for _, off := range uniqInts([]int{-1, 0, 2, l + 3}) {
+			a = append(a, ops.Op{K: "h.seek", N: off, H: wh})
+		}
+	}
+	a = append(a, ops.Op{K: "h.write", C: "AB"}, ops.Op{K: "h.write", C: ""}, ops.Op{K: "h.writestring", C: "C"})
+	if !appendMode {
+		for _, off := range uniqInts([]int{0, 2, l + 2}) {
+			a = append(a, ops.Op{K: "h.writeat", C: "Z", H: off})
+		}
+	}
+	for _, n := range uniqInts([]int{-1, 0, 2, l + 4}) {
+		a = append(a, ops.Op{K: "h.truncate", N: n})
+	}
+	a = append(a, ops.Op{K: "h.sync"}, ops.Op{K: "h.stat"})
+	return a
+}
